@@ -479,7 +479,7 @@ func classifyDeath(stderr string) Outcome {
 	if zeno != "" {
 		inner = "" // where exactly a stack ran out or the runtime gave up varies; the Zeno function does not
 	}
-	return Outcome{Kind: "fatal", Message: msg, Stack: maskAddrs(tail(stack, 6000)), Sig: mksig("fatal", "process", zeno, inner, msg)}
+	return Outcome{Kind: "fatal", Message: msg, Stack: maskAddrs(clip(stack, 6000)), Sig: mksig("fatal", "process", zeno, inner, msg)}
 }
 
 // ---------------------------------------------------------------- replay
